@@ -278,12 +278,60 @@ func c17bRunMode(t *testing.T, p c17bPlan, mode string) (res vfResult) {
 	return res
 }
 
+// c17bCases enumerates the whole space of overlap shapes: with / without a rollout in place, every sequence of 2 or
+// 3 of the five commands, every deploy-type command but the last as the held one (at either hook), or none held.
+func c17bCases(yield func(c17bPlan) bool) {
+	ops := []string{"deploy", "rollout-deploy", "rollout-set", "rollout-stop"}
+	var rec func(prefix []string, n int) bool
+	emit := func(seq []string, rollout bool) bool {
+		mk := func(held int, at string) c17bPlan {
+			p := c17bPlan{Rollout: rollout}
+			for i, op := range seq {
+				c := c17bCmd{Op: op}
+				if op == "deploy" || op == "rollout-deploy" {
+					c.Targets = 1 + i%2
+				}
+				if i == held {
+					c.HoldAt = at
+				}
+				p.Cmds = append(p.Cmds, c)
+			}
+			return p
+		}
+		if !yield(mk(-1, "")) {
+			return false
+		}
+		for i, op := range seq[:len(seq)-1] {
+			if op == "deploy" || op == "rollout-deploy" {
+				for _, at := range []string{"before-install", "installed"} {
+					if !yield(mk(i, at)) {
+						return false
+					}
+				}
+			}
+		}
+		return true
+	}
+	rec = func(prefix []string, n int) bool {
+		if len(prefix) == n {
+			return emit(prefix, false) && emit(prefix, true)
+		}
+		for _, op := range ops {
+			if !rec(append(append([]string{}, prefix...), op), n) {
+				return false
+			}
+		}
+		return true
+	}
+	_ = rec(nil, 2) && rec(nil, 3)
+}
+
 func TestVF_C17_Overlap(t *testing.T) {
-	vfCheck(t, vfProp[c17bPlan]{id: "C17", gen: c17bGen, run: c17bRun})
+	vfEnumerate(t, vfEnum[c17bPlan]{id: "C17", cases: c17bCases, run: c17bRun})
 }
 
 func TestVF_C10_Overlap(t *testing.T) {
-	vfCheck(t, vfProp[c17bPlan]{id: "C10", gen: c17bGen, run: func(t *testing.T, p c17bPlan) vfResult { return c17bRunMode(t, p, "C10") }})
+	vfEnumerate(t, vfEnum[c17bPlan]{id: "C10", cases: c17bCases, run: func(t *testing.T, p c17bPlan) vfResult { return c17bRunMode(t, p, "C10") }})
 }
 
 func vfUniq(xs []string) []string {
